@@ -4,8 +4,10 @@ package c13
 
 import (
 	"context"
+	"errors"
 	"fmt"
 	"testing"
+	"time"
 
 	"github.com/paulmach/osm"
 	"github.com/paulmach/osm/annotate"
@@ -35,6 +37,43 @@ type Case struct {
 	NilCreate, NilModify, NilDelete bool // the block pointer is nil instead of an empty OSM
 	Hists                           []Hist
 	Ignore                          bool
+	// OtherOpts: options Change does not document as having an effect:
+	// bit 0 IgnoreInconsistency(true), bit 1 Threshold(1h), bit 2 a ChildFilter
+	// rejecting everything.
+	OtherOpts int
+	// FailAt > 0: the data source fails with a backend error (not a not-found
+	// error) for the history of the FailAt-th (1-based, modulo) modified or
+	// deleted element.
+	FailAt int
+}
+
+var errBackend = errors.New("c13: injected backend failure")
+
+// faultyDS fails for one feature with an error NotFound does not recognise.
+type faultyDS struct {
+	*osm.HistoryDatasource
+	fail osm.FeatureID
+}
+
+func (d *faultyDS) NodeHistory(ctx context.Context, id osm.NodeID) (osm.Nodes, error) {
+	if id.FeatureID() == d.fail {
+		return nil, errBackend
+	}
+	return d.HistoryDatasource.NodeHistory(ctx, id)
+}
+
+func (d *faultyDS) WayHistory(ctx context.Context, id osm.WayID) (osm.Ways, error) {
+	if id.FeatureID() == d.fail {
+		return nil, errBackend
+	}
+	return d.HistoryDatasource.WayHistory(ctx, id)
+}
+
+func (d *faultyDS) RelationHistory(ctx context.Context, id osm.RelationID) (osm.Relations, error) {
+	if id.FeatureID() == d.fail {
+		return nil, errBackend
+	}
+	return d.HistoryDatasource.RelationHistory(ctx, id)
 }
 
 type key struct {
@@ -188,7 +227,29 @@ func check(c Case) error {
 	if c.Ignore {
 		opts = append(opts, annotate.IgnoreMissingChildren(true))
 	}
-	diff, err := annotate.Change(context.Background(), change, ds, opts...)
+	if c.OtherOpts&1 != 0 {
+		opts = append(opts, annotate.IgnoreInconsistency(true))
+	}
+	if c.OtherOpts&2 != 0 {
+		opts = append(opts, annotate.Threshold(time.Hour))
+	}
+	if c.OtherOpts&4 != 0 {
+		opts = append(opts, annotate.ChildFilter(func(osm.FeatureID) bool { return false }))
+	}
+	var src osm.HistoryDatasourcer = ds
+	if changed := append(append([]osm.Element{}, modifyOrder...), deleteOrder...); c.FailAt > 0 && len(changed) > 0 {
+		src = &faultyDS{HistoryDatasource: ds, fail: changed[(c.FailAt-1)%len(changed)].FeatureID()}
+	}
+	diff, err := annotate.Change(context.Background(), change, src, opts...)
+	if errors.Is(err, errBackend) {
+		// the injected failure surfaced. Anything else - success included - is
+		// judged as usual: the element's history exists, so a swallowed failure
+		// shows up as a wrong action.
+		if src == osm.HistoryDatasourcer(ds) {
+			return harness.Failf("C13/unexpected-error", "backend error without an injected fault: %v", err)
+		}
+		return nil
+	}
 	if wantErr != nil {
 		if err == nil {
 			return harness.Failf("C13/missing-error", "element %v has no earlier version in its history (ignore=%v) but Change succeeded", *wantErr, c.Ignore)
@@ -315,6 +376,12 @@ func classify(c Case) (bool, []string) {
 	if c.Ignore {
 		cl = append(cl, "ignore-missing")
 	}
+	if c.OtherOpts != 0 {
+		cl = append(cl, "unrelated-options")
+	}
+	if c.FailAt > 0 && len(c.Modify)+len(c.Delete) > 0 {
+		cl = append(cl, "datasource-fault")
+	}
 	return nt, dedup(cl)
 }
 
@@ -343,7 +410,7 @@ func genElems(t *rapid.T, label string) []Elem {
 func TestChange(t *testing.T) {
 	harness.Run(t, harness.Spec[Case]{
 		Name: "change", N: 20000,
-		Rule: "changes with 0..5 created, modified and deleted elements each (nodes, ways, relations over a small id space so ids collide; nil or empty blocks) x histories per element: missing entirely, present but empty, unsorted, with version gaps, with the element's own and later versions, duplicates; with/without IgnoreMissingChildren; oracle = reference pairing (create->modify->delete, node->way->relation, old = greatest version below own taken from the history by pointer identity, visibility flags, typed error naming the first element without predecessor, create fallback when ignoring); non-trivial = a modified/deleted element whose history is unsorted or holds its own/later versions",
+		Rule: "changes with 0..5 created, modified and deleted elements each (nodes, ways, relations over a small id space so ids collide; nil or empty blocks) x histories per element: missing entirely, present but empty, unsorted, with version gaps, with the element's own and later versions, duplicates; with/without IgnoreMissingChildren; a third of the cases add options Change does not react to (IgnoreInconsistency, Threshold, ChildFilter); one case in eight injects a data source failure that is not a not-found error for one modified/deleted element (Change must return it; any other outcome is judged as usual); oracle = reference pairing (create->modify->delete, node->way->relation, old = greatest version below own taken from the history by pointer identity, visibility flags, typed error naming the first element without predecessor, create fallback when ignoring); non-trivial = a modified/deleted element whose history is unsorted or holds its own/later versions",
 		Gen: func(t *rapid.T) Case {
 			c := Case{Create: genElems(t, "c"), Modify: genElems(t, "m"), Delete: genElems(t, "d"), Ignore: rapid.Bool().Draw(t, "ignore"),
 				NilCreate: rapid.Bool().Draw(t, "nc"), NilModify: rapid.Bool().Draw(t, "nm"), NilDelete: rapid.Bool().Draw(t, "nd")}
@@ -363,6 +430,12 @@ func TestChange(t *testing.T) {
 					}
 					c.Hists = append(c.Hists, h)
 				}
+			}
+			if rapid.IntRange(0, 2).Draw(t, "other?") == 0 {
+				c.OtherOpts = rapid.IntRange(1, 7).Draw(t, "otherOpts")
+			}
+			if rapid.IntRange(0, 7).Draw(t, "fault?") == 0 {
+				c.FailAt = rapid.IntRange(1, 10).Draw(t, "failAt")
 			}
 			return c
 		},
